@@ -206,6 +206,11 @@ def _time_course_worker(
     except ZeroDivisionError:
         res = Result(Exception())
 
+    # Same time grid as a successful run: the integrators start at t=0 and insert
+    # that point when the first requested one is later
+    time_points = np.array(time_points, dtype=float)
+    if time_points[0] != 0.0:
+        time_points = np.insert(time_points, 0, 0.0)
     return res.default(lambda: Simulation.default(model=model, time_points=time_points))
 
 
@@ -290,6 +295,15 @@ def _protocol_time_course_worker(
     except ZeroDivisionError:
         res = Result(Exception())
 
+    # Same time grid as a successful run: t=0, then the requested points together
+    # with the ends of the protocol steps, up to the end of the protocol
+    t_ends = [cast(pd.Timedelta, t).total_seconds() for t in protocol.index]
+    grid = np.union1d(
+        np.array(t_ends, dtype=float), np.array(time_points, dtype=float)
+    )
+    time_points = np.concatenate(
+        [np.array([0.0]), grid[(grid > 0.0) & (grid <= t_ends[-1])]]
+    )
     return res.default(lambda: Simulation.default(model=model, time_points=time_points))
 
 
